@@ -1452,8 +1452,10 @@ class C18(Check):
             return None
         where = "an instance taken out of the parsed tree" if lim.get("nested") else "a directly constructed instance"
         if st["op"] == "reparse":
-            if lim.get("ok") is not True:
-                return f"a sub-value taken out of an accepted tree is not accepted unchanged when parsed on its own ({_short(lim)})"
+            # a sub-value of an accepted tree has nesting depth <= d: parsed on its own it must not be refused for its
+            # depth (whether parsing a *result* again gives the same result is another property's business)
+            if lim.get("err") == "depth" or "escape" in lim:
+                return f"a sub-value taken out of an accepted tree is refused for its depth when parsed on its own ({_short(lim)})"
             return None
         fname = step_field(classes, st)
         limits = [limit_of(classes, k) for k in range(len(classes))]
@@ -1538,6 +1540,8 @@ def _short(o):
     if o is None:
         return "None"
     if "ok" in o:
+        if isinstance(o["ok"], bool):
+            return f"ok(same={o['ok']}, cost {o.get('cost')})"
         return f"ok(nesting {res_depth(o['ok'])}, cost {o.get('cost')})"
     if "err" in o:
         return f"{o['err']}-error(cost {o.get('cost')})"
